@@ -6,6 +6,7 @@ the intended design, the named deviations must violate them, and the exact expec
 are replayed into real cuqi.model.Model / LinearModel / PDEModel objects with real geometries.
 Sequences of public operations on ONE model object: specs/ModelGeomSeq12.tla (EXTENDS ModelGeom), replayed by cuqiverif/c12_seq.py.
 ONE INPUT OBJECT used, modified in place, used again: part X12 of specs/ModelGeomSeq12.tla, replayed by cuqiverif/c12_inplace.py.
+IDENTITY of the geometry object an input carries + data layout of the input: specs/ModelGeomIdent.tla, replayed by cuqiverif/c12_ident.py.
 """
 META = {
     "claimed": True,
@@ -32,7 +33,15 @@ META = {
              "array, x[:]; Samples: s.samples, the constructor's array, a view, rebinding) is replayed on real objects for 7 (thorough: 123) "
              "model x geometry configurations incl. StepExpansion, KLExpansion, MappedGeometry, Image2D, user geometries: after every "
              "action the content of the object and the answer must be the spec's exact value for the content the object has at that "
-             "moment (X12SeesCurrent, X12UseKeepsContent); 3 more named deviations must violate."),
+             "moment (X12SeesCurrent, X12UseKeepsContent); 3 more named deviations must violate. "
+             "GEOMETRY IDENTITY (ModelGeomIdent.tla, EXTENDS ModelGeom): the geometry OBJECT a CUQIarray / Samples input (forward) or wrt / direction "
+             "(gradient) carries is a dimension of the representation - the model's own object, copy.copy / copy.deepcopy of it, a geometry "
+             "constructed a second time with the same arguments, the object a prior holds (prior.sample().geometry), the original's object while the "
+             "MODEL is a deep copy; abstract objects [record, id], 'consistent' = equal records: invariants IdentOneInput / IdentWrt (the function "
+             "value / parameters the model obtains are G v / w for every equal identity), deviation GeometryMatchedByIdentity must violate both; "
+             "replayed for 4 (thorough 8) model kinds x every domain geometry where a second par2fun would change the value; inputs whose geometry "
+             "is NOT equal (other grid / size) are recorded only.  The raw values come as int / float32 / strided / read-only / column-major arrays "
+             "(layout is a field of the case; also for plain ndarray inputs)."),
     "note": ("Bounded sizes (domain function dimension 6, range 4); one argument models only (the pinned version supports one input). "
              "KLExpansion realised numerically from the original geometry object. Exact class of the output for plain ndarray input and "
              "exception types are observations, not asserted."),
@@ -398,14 +407,21 @@ def check_case(ctx, case):
 
 
 def run(ctx):
-    from cuqiverif import c12_inplace
+    from cuqiverif import c12_inplace, c12_ident
     inplace = c12_inplace.start(ctx)              # TLC runs of the in-place facet: in the background, collected at the end
+    ident = c12_ident.start(ctx)                  # TLC runs of the geometry-identity facet (ModelGeomIdent.tla), in the background
     try:
-        _run(ctx)
+        cases = _run(ctx)
     except BaseException:
         c12_inplace.abandon(inplace)
+        c12_ident.abandon(ident)
         raise
-    ctx.traces += c12_inplace.finish(ctx, inplace)
+    try:
+        ctx.traces += c12_inplace.finish(ctx, inplace)
+    except BaseException:
+        c12_ident.abandon(ident)
+        raise
+    ctx.traces += c12_ident.finish(ctx, ident, cases)
 
 
 def _run(ctx):
@@ -445,6 +461,7 @@ def _run(ctx):
     ctx.assumptions += ["function dimensions 6 (domain) and 4 (range); single-input models",
                         "KLExpansion realised numerically: its maps are read off the original geometry object",
                         "floating comparison rtol=atol=1e-10"]
+    return cases
 
 
 def replay(ctx, case):
@@ -455,6 +472,9 @@ def replay(ctx, case):
     if case.get("kind") == "seq12":
         from cuqiverif import c12_seq
         return c12_seq.check_seq12_case(ctx, case)
+    if case.get("kind") == "ident":
+        from cuqiverif import c12_ident
+        return c12_ident.replay(ctx, case)
     if case.get("kind") == "x12":
         from cuqiverif import c12_inplace
         return c12_inplace.check_x12_case(ctx, case)
